@@ -1,4 +1,5 @@
 """C20 - ground columns are refined and padded without changing their physics."""
+import math
 import os
 import shutil
 from fractions import Fraction as F
@@ -182,26 +183,72 @@ def run(chk):
         for kf in chk.known_findings():
             if kf['id'] == 'C20-urban-road-not-padded':
                 chk.report_known(kf)
-    # --- T5 on a real (float) run: deep temperature used = Tsoil[index][month-1] of the header
+    # --- T5 on real (float) runs: deep temperature used at EVERY step = Tsoil[index][month-1] of the
+    # header, month = calendar month when the step starts (runs cross month boundaries)
     core.repo_python_path()
     import uwg as realuwg
-    months = [1, 7] if chk.tier == 'quick' else list(range(1, 13))
-    bad3 = 0
-    for mo in months:
+    starts = [(1, 31, 2), (7, 1, 1)] if chk.tier == 'quick' else \
+        [(mo, 28 if mo == 2 else 30, 3) for mo in range(1, 12)] + [(12, 1, 1)]
+    bad3, nsteps = 0, 0
+    hdr = open(os.path.join(repo, EPW), errors='ignore').read().split('\n')[3].split(',')
+    for (mo, dy, nd) in starts:
         m = realuwg.UWG.from_param_file(os.path.join(repo, PARAM), epw_path=os.path.join(repo, EPW),
                                         new_epw_dir=work, new_epw_name='t5.epw')
-        m.month, m.day, m.nday, m.dtsim = mo, 1, 1, 900
+        m.month, m.day, m.nday, m.dtsim = mo, dy, nd, 300
         with core.quiet():
             m.generate()
+        seen = []
+        orig = m.simTime.update_date
+
+        def upd(orig=orig, m=m, seen=seen):
+            seen.append((m.simTime.month, m.forc.deepTemp))     # month before the clock advances
+            return orig()
+        m.simTime.update_date = upd
+        with core.quiet():
             m.simulate()
-        hdr = open(os.path.join(repo, EPW), errors='ignore').read().split('\n')[3].split(',')
-        want = float(hdr[6 + 16 * m._soilindex1 + (mo - 1)]) + 273.15
-        if m.forc.deepTemp != want:
-            bad3 += 1
-            chk.violation('impl-violation', 'deep temperature oracle (T5)', case={'month': mo},
-                          observed=m.forc.deepTemp, expected=want)
-    chk.direct('deepTemp-oracle(simulate)', len(months), len(months),
-               'real 1-day runs: forc.deepTemp equals the EPW header value of the chosen depth for the month',
-               mismatches=bad3)
+        del m.simTime.update_date
+        nsteps += len(seen)
+        for (month, deep) in seen:
+            want = float(hdr[6 + 16 * m._soilindex1 + (month - 1)]) + 273.15
+            if deep != want:
+                bad3 += 1
+                chk.violation('impl-violation', 'deep temperature oracle (T5)',
+                              case={'start': [mo, dy], 'nday': nd, 'month_of_step': month},
+                              observed=deep, expected=want)
+                break
+    chk.direct('deepTemp-oracle(simulate, every step)', nsteps, len(starts),
+               'real runs crossing month boundaries: at every step forc.deepTemp equals the EPW header value of '
+               'the chosen depth for the calendar month in which the step starts', mismatches=bad3)
+
+    # --- float-level padding oracle on the real generate(): pavement thickness grid
+    grid = [0.05 * k for k in range(1, 81)] if chk.tier == 'thorough' else \
+        [0.05, 0.1, 0.15, 0.25, 0.3, 0.35, 0.5, 0.55, 0.75, 1.0, 1.5, 2.0, 2.05, 2.5, 3.0, 3.85, 3.9, 4.0]
+    depths_f = [float(hdr[2 + 16 * i]) for i in range(int(hdr[1]))]
+    bad4 = 0
+    for droad in grid:
+        m = realuwg.UWG.from_param_file(os.path.join(repo, PARAM), epw_path=os.path.join(repo, EPW))
+        m.nday, m.droad = 1, droad
+        with core.quiet():
+            m.generate()
+        for el, idxname in ((m.road, '_soilindex1'), (m.rural, '_soilindex2')):
+            pavement = 0.05 * int(math.ceil(droad / 0.05)) if droad > 0.05 else droad
+            idx = getattr(m, idxname)
+            want_idx = next((i for i, d in enumerate(depths_f) if d > pavement - 1e-9), None)
+            tot = sum(el.layer_thickness_lst)
+            gap_layers = (depths_f[idx] - pavement) / 0.05
+            ok = idx == want_idx and depths_f[idx] - 1e-9 <= tot < depths_f[idx] + 0.05 - 1e-9
+            if abs(gap_layers - round(gap_layers)) < 1e-6:
+                ok = ok and abs(tot - depths_f[idx]) < 1e-9
+            if not ok:
+                bad4 += 1
+                if bad4 <= 2:
+                    chk.violation('impl-violation', 'padding oracle (T3/T4) on the real float generate()',
+                                  case={'droad': droad, 'element': el.name},
+                                  observed={'index': idx, 'column_depth': tot, 'layers': len(el.layer_thickness_lst)},
+                                  expected='index %s, column ending at depth %s' % (want_idx, depths_f[want_idx]))
+    chk.direct('padding-oracle(real float generate)', 2 * len(grid), 2 * len(grid),
+               'real (double precision) generate() over a grid of pavement thicknesses: road and rural columns end at '
+               'the first ground-temperature depth at or below the pavement (exactly, to 1e-9, when the gap is a whole '
+               'number of 5 cm layers)', mismatches=bad4)
     chk.assumptions.append('float effects in ceil(droad/0.05) and depth > sum(thickness) are outside the exact '
                            'model (e.g. droad=0.35 gives 8 pavement layers in doubles, 7 exactly)')
